@@ -59,6 +59,7 @@ def matrix(tier, rnd):
             add((sc, m))
     # the context is already cancelled when Run is called (callers before and after)
     add(P.lifecycle_scenario(0, "cancel", "before-run", "none", before_api=True, after_api=True))
+    add(P.lifecycle_scenario(0, "kill", "before-run", "none", before_api=True, after_api=True))
     add(P.lifecycle_scenario(0, "cancel", "before-run", "none", after_api=True, waits_before_run=3))
     # Wait entered before Run has started
     for cause in ("quit", "kill", "cancel", "interrupt", "readerr"):
